@@ -22,5 +22,10 @@ def plans(tier):
     ]
 
 
+def sweeps(chk, sd, binp):
+    import dist_common
+    dist_common.run(chk, sd, chk.tier, ['wrr', 'rrcount'], {"C05"})
+
+
 def run(tier):
-    return pc.run_check("C05", tier, ("C05",), plans(tier), clauses={"NotReadmitted"})
+    return pc.run_check("C05", tier, ("C05",), plans(tier), clauses={"NotReadmitted"}, extra=sweeps)
